@@ -1187,6 +1187,40 @@ func c01TokenStorage(c *core.Ctx) {
 				for _, e := range x.Edges {
 					walk(e, d+1)
 				}
+			case *ssa.Parameter:
+				// the packet is put together in a helper that is handed the token
+				// (sendOnFace(face, packet, token, inFace)): what this pipeline passes
+				g := x.Parent()
+				idx := -1
+				for i, q := range g.Params {
+					if q == x {
+						idx = i
+					}
+				}
+				nSites := 0
+				for _, ci := range p.Callers(g) {
+					inReach := false
+					for _, r := range core.Reach(fn) {
+						if ci.Parent() == r {
+							inReach = true
+						}
+					}
+					if !inReach || idx < 0 {
+						continue
+					}
+					recv, as := core.CallArgs(ci.Common())
+					all := as
+					if g.Signature.Recv() != nil {
+						all = append([]ssa.Value{recv}, as...)
+					}
+					if idx < len(all) {
+						nSites++
+						walk(all[idx], d+1)
+					}
+				}
+				if nSites == 0 {
+					bad = "a parameter whose argument in this pipeline was not found, at " + c.Pos(in)
+				}
 			case *ssa.Call:
 				if b, isB := x.Call.Value.(*ssa.Builtin); isB && b.Name() == "append" {
 					walk(x.Call.Args[0], d+1)
@@ -1194,6 +1228,19 @@ func c01TokenStorage(c *core.Ctx) {
 				}
 				if _, okC := core.IsCall(x, core.CalleeID{Pkg: "slices", Name: "Clone"}, core.CalleeID{Pkg: "bytes", Name: "Clone"}); okC {
 					return
+				}
+				// a helper of the thread that makes the token (makePitToken(entry)): what it returns
+				if g := x.Call.StaticCallee(); g != nil && g.Blocks != nil && strings.HasPrefix(core.PkgPathOf(g), core.ModPath) && d < 5 {
+					nR := 0
+					core.Instrs(g, func(ri ssa.Instruction) {
+						if r, okR := ri.(*ssa.Return); okR && len(r.Results) == 1 && ri.Block() != g.Recover {
+							nR++
+							walk(r.Results[0], d+1)
+						}
+					})
+					if nR > 0 {
+						return
+					}
 				}
 				bad = "result of a call at " + c.Pos(x)
 			default:
